@@ -19,6 +19,21 @@ def _trace(path, text):
         os.close(fd)
 
 
+def blob(size, *seed):
+    """deterministic, poorly compressible text of `size` characters (hex digits with a few quotes, brackets and
+    backslashes mixed in, so that a torn tail inside it still exercises JSON string escaping)"""
+    import hashlib
+    out, n, i = [], 0, 0
+    while n < size:
+        h = hashlib.sha256(("%r/%d" % (seed, i)).encode()).hexdigest()
+        if i % 17 == 5:
+            h = h[:30] + '"]\\[{' + h[36:]
+        out.append(h)
+        n += len(h)
+        i += 1
+    return "".join(out)[:size]
+
+
 class Env:
     """n interactions with 2-3 actions; params vary in shape with k"""
 
@@ -67,8 +82,9 @@ class Val:
     """mode 'rows': synthetic rows (shape given by `style`); mode 'cb': real SequentialCB(['reward']);
     `empty` lists (ek,lk) pairs for which zero rows are returned; `boom` lists pairs that raise."""
 
-    def __init__(self, k, trace, mode="rows", style=0, nrows=3, empty=(), boom=()):
+    def __init__(self, k, trace, mode="rows", style=0, nrows=3, empty=(), boom=(), big=None):
         self.k, self.trace, self.mode, self.style, self.nrows = k, trace, mode, style, nrows
+        self.big = big      # {"pairs": [[ek,lk],…], "size": characters in total, "rows": n}: these pairs yield n rows holding long strings
         self.empty = [tuple(x) for x in empty]
         self.boom = [tuple(x) for x in boom]
 
@@ -83,6 +99,9 @@ class Val:
             raise Exception("evaluation of (%d,%d,%d) fails by design" % (ek, lk, self.k))
         if (ek, lk) in self.empty:
             return []
+        if self.big and [ek, lk] in [list(p) for p in self.big["pairs"]]:
+            n = max(1, int(self.big.get("rows", 1)))
+            return [{"reward": i, "blob": blob(self.big["size"] // n, ek, lk, self.k, i)} for i in range(n)]
         if self.mode == "cb":
             from coba.evaluators import SequentialCB
             return list(SequentialCB(["reward"], seed=1).evaluate(env, lrn))
